@@ -128,5 +128,25 @@ int main ()
     long double want = atan2l (sy, sx); long double got = m.get_Estimate().val; long double diff = fabsl (remainderl (got - want, 2*M_PIl));
     O.put (dhex ((double) diff)); O.put (dhex ((double) hypotl (sx, sy))); };
 
+  // oracle: the circular mean accumulators are independent of order and grouping (to rounding): every permutation folded
+  // sequentially and every two-way split merged; prints the largest relative deviation of the sine / cosine accumulators
+  OP("o.c12.circ") { unsigned n=A.nat(); std::vector<ED> items; for (unsigned i=0;i<n;i++) items.push_back (rdD(A));
+    auto fold = [](const std::vector<ED>& v, unsigned lo, unsigned hi) { MeanRadian<double> m; bool first = true;
+      for (unsigned i=lo;i<hi;i++) { if (first) { m = v[i]; first = false; } else m += v[i]; } return m; };
+    MeanRadian<double> ref = fold (items, 0, n); ED rc = ref.get_cos(), rs = ref.get_sin();
+    double scale = 1e-300; for (auto& e : items) if (e.var != 0) scale += 1.0/e.var;
+    auto dev = [&](MeanRadian<double>& m) { ED c = m.get_cos(), s2 = m.get_sin();
+      double wref = rc.var != 0 ? 1.0/rc.var : 0, w = c.var != 0 ? 1.0/c.var : 0, vref = rs.var != 0 ? 1.0/rs.var : 0, v = s2.var != 0 ? 1.0/s2.var : 0;
+      double d = std::fabs (c.val*w - rc.val*wref) + std::fabs (w - wref) + std::fabs (s2.val*v - rs.val*vref) + std::fabs (v - vref);
+      return d; };
+    double worst = 0; double wscale = 1e-300;
+    { ED c = ref.get_cos(), s2 = ref.get_sin(); if (c.var != 0) wscale += 1.0/c.var; if (s2.var != 0) wscale += 1.0/s2.var; }
+    std::vector<unsigned> perm (n); for (unsigned i=0;i<n;i++) perm[i]=i;
+    do { std::vector<ED> p; for (unsigned i=0;i<n;i++) p.push_back (items[perm[i]]);
+      MeanRadian<double> m = fold (p, 0, n); worst = std::max (worst, dev (m));
+      for (unsigned k=1;k<n;k++) { MeanRadian<double> a = fold (p, 0, k), b = fold (p, k, n); a += b; worst = std::max (worst, dev (a)); }
+    } while (std::next_permutation (perm.begin(), perm.end()));
+    O.put (dhex (worst / wscale)); };
+
   return run_stream (ops);
 }
